@@ -12,7 +12,7 @@ BOUNDS = {
 }
 OUTSIDE = ("histories longer than the bound that depend on hidden state other than coords/payloads/saved position; non-injective "
            "updateCoords callbacks; unordered or non-unique fibers; floats")
-ASSUMPTIONS = ["A1 integers only", "A2 callbacks c -> c+o, c -> o-c, p -> p+w", "A4 type-consistent arguments",
+ASSUMPTIONS = ["A1 integers only", "A2 callbacks c -> c+o, c -> o-c, any injective table on the stored coordinates of the root fiber, p -> p+w", "A4 type-consistent arguments",
                "pre-state invariant = well-formed tree built by the public constructor (every wf tree of the skeleton is constructible)"]
 
 
@@ -32,6 +32,8 @@ def history(sk, *xs):
         r = ops.apply(name, d, f, t, a, opt)
         if wf(f, d) < 0:
             return fail("not well-formed after %s (%s): %r" % (name, r, raw(f) if raw_lens_ok(f) else "coords/payloads length mismatch"))
+        if r.startswith("pairing"):
+            return fail(r)
         if r == "rejected" and raw(f) != snap:
             return fail("%s was rejected for coordinate order but changed the tree" % name)
         if want_mirror and t is not None:
@@ -65,7 +67,7 @@ def mk(tree, owned, oplist, mirror_=False, budget=None, tag=""):
 
 def single_ops(d, n_top, tier):
     """all single operations applicable to a tree of depth d whose root has n_top elements"""
-    out = [("ref_assign", {}), ("ref_add", {}), ("posref", {}), ("append", {}), ("clear", {}),
+    out = [("ref_assign", {}), ("ref_add", {}), ("posref", {}), ("append", {}), ("clear", {}), ("insert_dep", {}), ("insertOrLookup_dep", {}),
            ("upd_coords_inc", {}), ("upd_coords_dec", {})]
     for pos in range(-n_top - 1, n_top + 1):
         out.append(("setitem_cp", {"pos": pos}))
@@ -77,6 +79,8 @@ def single_ops(d, n_top, tier):
     out.append(("extend", {"n": 1}))
     out.append(("extend", {"n": 2}))
     out.append(("range_shape_ref", {"span": 3}))
+    if n_top >= 2:
+        out.append(("upd_coords_table", {"n": n_top}))
     if d == 1:
         out += [("iadd_s", {}), ("imul_s", {}), ("upd_payloads", {})]
         for n in (1, 2):
@@ -108,11 +112,20 @@ def obligations(tier, mirror_=False, tag=""):
         for op in single_ops(d, n_top(tree), tier):
             if tier == "quick" and op[0] == "populate2" and tree == [2, 1]:
                 continue
-            if mirror_ and d >= 2 and op[0] in ("append", "extend", "setitem_cp", "setitem_val", "setitem_coord"):
+            if mirror_ and d >= 2 and op[0] in ("append", "extend", "setitem_cp", "setitem_val", "setitem_coord", "insert_dep", "insertOrLookup_dep"):
                 # C02's quantifier: insertions, populate, dense reference iteration, fiber assignment, clearing.
                 # Splicing caller-built sub-fibers in by position is documented as not registering them.
                 continue
             obs.append(mk(tree, owned, [op], mirror_, tag=tag))
+        if owned and not mirror_ and n_top(tree) >= 1:
+            obs.append(mk(tree, owned, [("setitem_cp", {"pos": n_top(tree) - 1, "via": "tensor"})], mirror_, tag=tag))
+    for tree in ([[[1]], [[]]] if tier == "quick" else [[[1]], [[]], [[1, 1]], [[1], [1]]]):
+        obs.append(mk(tree, True, [("populate_ref", {})], mirror_, tag=tag))
+    obs.append(mk([1, 0], True, [("populate_ref", {})], mirror_, tag=tag))
+    if tier == "quick" and not mirror_:
+        # an inversion early in a 3-fiber followed by an ordered last pair needs at least three stored elements
+        obs.append(mk(3, False, [("upd_coords_table", {"n": 3})], mirror_, tag=tag))
+        obs.append(mk([1, 1, 1], True, [("upd_coords_table", {"n": 3})], mirror_, tag=tag))
     # short histories (hidden state: saved positions, active ranges set by populate, defaults replaced by <<=)
     pairs = [("populate", {"n": 1}), ("ref_assign", {}), ("append", {}), ("setitem_cp", {"pos": 0}), ("upd_coords_dec", {}),
              ("ilshift_f", {"n": 1}), ("range_shape_ref", {"span": 2}), ("iadd_f", {"n": 1}), ("clear", {})]
